@@ -2,4 +2,1392 @@ import MM.Model.C27
 
 namespace MM.C27
 
+/-! ### the flat map -/
+
+theorem lookup_nil (fs : FS) : fs.lookup [] = some .dir := by simp [FS.lookup]
+
+theorem find_filter_ne' {α β : Type} [DecidableEq α] {l : List (α × β)} {p q : α} (h : q ≠ p) :
+    (l.filter (fun e => e.1 ≠ p)).find? (fun e => e.1 = q) = l.find? (fun e => e.1 = q) := by
+  induction l with
+  | nil => rfl
+  | cons e es ih =>
+    by_cases hp : e.1 = p
+    · have hq : e.1 ≠ q := fun hh => h (hh ▸ hp)
+      rw [List.filter_cons_of_neg (by simpa using hp), List.find?_cons_of_neg (by simpa using hq)]
+      exact ih
+    · rw [List.filter_cons_of_pos (by simpa using hp)]
+      by_cases hq : e.1 = q
+      · rw [List.find?_cons_of_pos (by simpa using hq), List.find?_cons_of_pos (by simpa using hq)]
+      · rw [List.find?_cons_of_neg (by simpa using hq), List.find?_cons_of_neg (by simpa using hq)]
+        exact ih
+
+theorem find_filter_ne {l : List (Path × Kind)} {p q : Path} (h : q ≠ p) :
+    (l.filter (fun e => e.1 ≠ p)).find? (fun e => e.1 = q) = l.find? (fun e => e.1 = q) :=
+  find_filter_ne' h
+
+theorem lookup_set (fs : FS) {p : Path} (k : Kind) (q : Path) (hp : p ≠ []) :
+    (fs.set p k).lookup q = if q = p then some k else fs.lookup q := by
+  unfold FS.lookup FS.set
+  by_cases hq : q = []
+  · subst hq
+    have : ([] : Path) ≠ p := fun h => hp h.symm
+    simp [this]
+  · by_cases hqp : q = p
+    · subst hqp; simp [hq, List.find?_cons]
+    · have hpq : ¬ p = q := fun h => hqp h.symm
+      simp only [hq, if_false, hqp, List.find?_cons, hpq, decide_false]
+      rw [find_filter_ne hqp]
+
+theorem lookup_del (fs : FS) {p : Path} (q : Path) (hp : p ≠ []) :
+    (fs.del p).lookup q = if q = p then none else fs.lookup q := by
+  unfold FS.lookup FS.del
+  by_cases hq : q = []
+  · subst hq
+    have : ([] : Path) ≠ p := fun h => hp h.symm
+    simp [this]
+  · by_cases hqp : q = p
+    · subst hqp
+      simp only [hq, if_false, if_true]
+      have : (fs.ents.filter (fun e => e.1 ≠ q)).find? (fun e => e.1 = q) = none := by
+        apply List.find?_eq_none.mpr
+        intro e he
+        have := (List.mem_filter.mp he).2
+        simpa using this
+      rw [this]; rfl
+    · simp only [hq, if_false, hqp]
+      rw [find_filter_ne hqp]
+
+@[simp] theorem lookup_setData (fs : FS) (i c : Nat) (q : Path) :
+    (fs.setData i c).lookup q = fs.lookup q := rfl
+
+@[simp] theorem lookup_withNext (fs : FS) (n : Nat) (q : Path) :
+    ({ fs with next := n } : FS).lookup q = fs.lookup q := rfl
+
+@[simp] theorem content_set (fs : FS) (p : Path) (k : Kind) (i : Nat) :
+    (fs.set p k).content i = fs.content i := rfl
+
+@[simp] theorem content_del (fs : FS) (p : Path) (i : Nat) : (fs.del p).content i = fs.content i := rfl
+
+@[simp] theorem content_withNext (fs : FS) (n : Nat) (i : Nat) :
+    ({ fs with next := n } : FS).content i = fs.content i := rfl
+
+theorem find_filter_ne_data {l : List (Nat × Nat)} {p q : Nat} (h : q ≠ p) :
+    (l.filter (fun e => e.1 ≠ p)).find? (fun e => e.1 = q) = l.find? (fun e => e.1 = q) :=
+  find_filter_ne' h
+
+theorem content_setData (fs : FS) (i c j : Nat) :
+    (fs.setData i c).content j = if j = i then some c else fs.content j := by
+  unfold FS.content FS.setData
+  by_cases h : j = i
+  · subst h; simp [List.find?_cons]
+  · have h' : ¬ i = j := fun e => h e.symm
+    simp only [h, if_false, List.find?_cons, h', decide_false]
+    rw [find_filter_ne_data h]
+
+/-! ### lexical resolution -/
+
+def NoSymAt (fs : FS) (p : Path) : Prop := ∀ t, fs.lookup p ≠ some (.sym t)
+
+/-- the first `m` components of `P` (as prefixes of `P`) are not symbolic links -/
+def Clear (fs : FS) (P : Path) (m : Nat) : Prop := ∀ j, j < m → NoSymAt fs (P.take (j + 1))
+
+def NoDD (l : List Name) : Prop := ∀ n ∈ l, n ≠ dd
+
+/-- what `walk` returns when no symbolic link is met: the lexical lookup -/
+def lexRes (fs : FS) (follow : Bool) : Path → List Name → Res
+  | cur, [] => .found cur .dir
+  | cur, n :: rest =>
+    match fs.lookup (cur ++ [n]) with
+    | none => if rest = [] then .missing cur n else .err
+    | some .dir => lexRes fs follow (cur ++ [n]) rest
+    | some (.file i) => if rest = [] then .found (cur ++ [n]) (.file i) else .err
+    | some (.sym t) => if rest = [] ∧ follow = false then .found (cur ++ [n]) (.sym t) else .err
+
+theorem walkAux_lex (fs : FS) (follow : Bool) (k : Path → List Name → Res) :
+    ∀ (todo : List Name) (cur : Path), NoDD todo →
+      (∀ j, j < todo.length → NoSymAt fs (cur ++ todo.take (j + 1)) ∨ (j + 1 = todo.length ∧ follow = false)) →
+      walkAux fs follow k cur todo = lexRes fs follow cur todo := by
+  intro todo
+  induction todo with
+  | nil => intro cur _ _; rfl
+  | cons n rest ih =>
+    intro cur hdd hclear
+    have hn : n ≠ dd := hdd n (List.mem_cons_self ..)
+    have hrest : NoDD rest := fun x hx => hdd x (List.mem_cons_of_mem _ hx)
+    unfold walkAux lexRes
+    rw [if_neg hn]
+    cases hl : fs.lookup (cur ++ [n]) with
+    | none => rfl
+    | some kd =>
+      cases kd with
+      | dir =>
+        simp only
+        apply ih (cur ++ [n]) hrest
+        intro j hj
+        have := hclear (j + 1) (by simp; omega)
+        simpa [List.take_succ_cons, List.append_assoc] using this
+      | file i => rfl
+      | sym t =>
+        simp only
+        have h0 := hclear 0 (by simp)
+        rcases h0 with h0 | ⟨hlen, hf⟩
+        · exact absurd hl (by simpa using h0 t)
+        · have hre : rest = [] := by
+            simp at hlen; exact hlen
+          simp [hre, hf]
+
+theorem walk_lex (fs : FS) (follow : Bool) (fu : Nat) (cur : Path) (todo : List Name) (hdd : NoDD todo)
+    (h : ∀ j, j < todo.length → NoSymAt fs (cur ++ todo.take (j + 1)) ∨ (j + 1 = todo.length ∧ follow = false)) :
+    walk fs follow fu cur todo = lexRes fs follow cur todo := by
+  cases fu with
+  | zero => exact walkAux_lex fs follow _ todo cur hdd h
+  | succ f => exact walkAux_lex fs follow _ todo cur hdd h
+
+theorem lstat_lex {fs : FS} {fu : Nat} {P : Path} (hdd : NoDD P) (h : Clear fs P (P.length - 1)) :
+    lstat fs fu P = lexRes fs false [] P := by
+  unfold lstat
+  apply walk_lex _ _ _ _ _ hdd
+  intro j hj
+  by_cases hlast : j + 1 = P.length
+  · exact Or.inr ⟨hlast, rfl⟩
+  · left; simpa using h j (by omega)
+
+theorem stat_lex {fs : FS} {fu : Nat} {P : Path} (hdd : NoDD P) (h : Clear fs P P.length) :
+    stat fs fu P = lexRes fs true [] P := by
+  unfold stat
+  apply walk_lex _ _ _ _ _ hdd
+  intro j hj
+  left; simpa using h j hj
+
+/-- Shape of a lexical result. -/
+theorem lexRes_found {fs : FS} {fl : Bool} : ∀ {todo : List Name} {cur p : Path} {k : Kind},
+    lexRes fs fl cur todo = .found p k →
+      p = cur ++ todo ∧ (todo ≠ [] → fs.lookup p = some k) ∧ (todo = [] → k = .dir) := by
+  intro todo
+  induction todo with
+  | nil =>
+    intro cur p k h
+    unfold lexRes at h
+    cases h
+    simp
+  | cons n rest ih =>
+    intro cur p k h
+    unfold lexRes at h
+    cases hl : fs.lookup (cur ++ [n]) with
+    | none => rw [hl] at h; simp only at h; split at h <;> cases h
+    | some kd =>
+      rw [hl] at h
+      cases kd with
+      | dir =>
+        simp only at h
+        have ⟨h1, h2, h3⟩ := ih h
+        refine ⟨by rw [h1]; simp, fun _ => ?_, fun hn => by cases hn⟩
+        by_cases hr : rest = []
+        · subst hr
+          have := h3 rfl
+          subst this
+          rw [h1]; simpa using hl
+        · exact h2 hr
+      | file i =>
+        simp only at h
+        split at h
+        · rename_i hr
+          cases h
+          subst hr
+          exact ⟨rfl, fun _ => hl, fun hn => by cases hn⟩
+        · cases h
+      | sym t =>
+        simp only at h
+        split at h
+        · rename_i hr
+          cases h
+          have := hr.1
+          subst this
+          exact ⟨rfl, fun _ => hl, fun hn => by cases hn⟩
+        · cases h
+
+theorem lexRes_missing {fs : FS} {fl : Bool} : ∀ {todo : List Name} {cur par : Path} {n : Name},
+    lexRes fs fl cur todo = .missing par n →
+      par ++ [n] = cur ++ todo ∧ fs.lookup (cur ++ todo) = none ∧ (par = cur ∨ fs.lookup par = some .dir) := by
+  intro todo
+  induction todo with
+  | nil => intro cur par n h; unfold lexRes at h; cases h
+  | cons m rest ih =>
+    intro cur par n h
+    unfold lexRes at h
+    cases hl : fs.lookup (cur ++ [m]) with
+    | none =>
+      rw [hl] at h
+      simp only at h
+      split at h
+      · rename_i hr
+        cases h
+        subst hr
+        exact ⟨rfl, hl, Or.inl rfl⟩
+      · cases h
+    | some kd =>
+      rw [hl] at h
+      cases kd with
+      | dir =>
+        simp only at h
+        have ⟨h1, h2, h3⟩ := ih h
+        refine ⟨by rw [h1]; simp, by simpa using h2, ?_⟩
+        rcases h3 with h3 | h3
+        · right; rw [h3]; exact hl
+        · exact Or.inr h3
+      | file i => simp only at h; split at h <;> cases h
+      | sym t => simp only at h; split at h <;> cases h
+
+end MM.C27
+
+namespace MM.C27
+
+/-! ### invariants and safe mutations -/
+
+/-- strictly below the destination -/
+def Under (dest q : Path) : Prop := dest <+: q ∧ q ≠ dest
+
+theorem Under.ne_nil {dest q : Path} (h : Under dest q) : q ≠ [] := by
+  intro hq
+  subst hq
+  have : dest = [] := List.prefix_nil.mp h.1
+  exact h.2 this.symm
+
+theorem Under.length_lt {dest q : Path} (h : Under dest q) : dest.length < q.length := by
+  have hle := h.1.length_le
+  rcases Nat.lt_or_eq_of_le hle with hl | he
+  · exact hl
+  · exact absurd (h.1.eq_of_length he).symm h.2
+
+theorem Under.ne_take {dest q : Path} (h : Under dest q) (j : Nat) : q ≠ dest.take j := by
+  intro he
+  have := h.length_lt
+  rw [he] at this
+  simp at this
+  omega
+
+structure Inv (dest : Path) (fs : FS) : Prop where
+  wf : ∀ p k, p ≠ [] → fs.lookup p = some k → fs.lookup p.dropLast = some .dir
+  fresh : ∀ p i, fs.lookup p = some (.file i) → i < fs.next
+  sep : ∀ p q i, fs.lookup p = some (.file i) → fs.lookup q = some (.file i) → Under dest p → Under dest q
+  phys : ∀ j, j < dest.length → fs.lookup (dest.take (j + 1)) = some .dir
+
+/-- `fs'` differs from `fs` only strictly below `dest`, inode contents change only for inodes
+    that were linked below `dest` (or are new), and the invariants survive. -/
+structure Safe (dest : Path) (fs fs' : FS) : Prop where
+  look : ∀ q, ¬ Under dest q → fs'.lookup q = fs.lookup q
+  data : ∀ i, fs'.content i ≠ fs.content i → (∃ q, Under dest q ∧ fs.lookup q = some (.file i)) ∨ fs.next ≤ i
+  prov : ∀ q i, Under dest q → fs'.lookup q = some (.file i) →
+    (∃ q', Under dest q' ∧ fs.lookup q' = some (.file i)) ∨ fs.next ≤ i
+  next : fs.next ≤ fs'.next
+  inv : Inv dest fs → Inv dest fs'
+
+theorem Safe.refl (dest : Path) (fs : FS) : Safe dest fs fs :=
+  ⟨fun _ _ => rfl, fun _ h => absurd rfl h, fun q i hq h => Or.inl ⟨q, hq, h⟩, Nat.le_refl _, id⟩
+
+theorem Safe.trans {dest : Path} {a b c : FS} (h1 : Safe dest a b) (h2 : Safe dest b c) : Safe dest a c := by
+  refine ⟨fun q hq => (h2.look q hq).trans (h1.look q hq), ?_, ?_, Nat.le_trans h1.next h2.next,
+    fun hi => h2.inv (h1.inv hi)⟩
+  · intro i hne
+    by_cases hb : b.content i = a.content i
+    · have : c.content i ≠ b.content i := by rw [hb]; exact hne
+      rcases h2.data i this with ⟨q, hq, hl⟩ | hn
+      · exact h1.prov q i hq hl
+      · exact Or.inr (Nat.le_trans h1.next hn)
+    · exact h1.data i hb
+  · intro q i hq hl
+    rcases h2.prov q i hq hl with ⟨q', hq', hl'⟩ | hn
+    · exact h1.prov q' i hq' hl'
+    · exact Or.inr (Nat.le_trans h1.next hn)
+
+/-- no symbolic link appears that was not there -/
+def NoNewSym (fs fs' : FS) : Prop := ∀ q t, fs'.lookup q = some (.sym t) → fs.lookup q = some (.sym t)
+
+theorem NoNewSym.refl (fs : FS) : NoNewSym fs fs := fun _ _ h => h
+theorem NoNewSym.trans {a b c : FS} (h1 : NoNewSym a b) (h2 : NoNewSym b c) : NoNewSym a c :=
+  fun q t h => h1 q t (h2 q t h)
+
+theorem Clear.mono {fs fs' : FS} {P : Path} {m : Nat} (h : Clear fs P m) (hn : NoNewSym fs fs') :
+    Clear fs' P m := fun j hj t hl => h j hj t (hn _ t hl)
+
+theorem Clear.le {fs : FS} {P : Path} {m m' : Nat} (h : Clear fs P m) (hle : m' ≤ m) : Clear fs P m' :=
+  fun j hj => h j (by omega)
+
+/-- Setting a new entry (not a directory-with-children issue: the slot was empty, its parent is a
+    directory) strictly below `dest`. `hk` says where a file's inode comes from. -/
+theorem safe_set {dest : Path} {fs : FS} {q : Path} {k : Kind} (hq : Under dest q)
+    (hnone : fs.lookup q = none) (hpar : fs.lookup q.dropLast = some .dir)
+    (hk : ∀ i, k = .file i → ∃ src, Under dest src ∧ fs.lookup src = some (.file i)) :
+    Safe dest fs (fs.set q k) := by
+  have hq0 := hq.ne_nil
+  refine ⟨?_, ?_, ?_, Nat.le_refl _, ?_⟩
+  · intro p hp
+    rw [lookup_set fs k p hq0]
+    have : p ≠ q := fun h => hp (h ▸ hq)
+    simp [this]
+  · intro i hne; exact absurd rfl hne
+  · intro p i hp hl
+    rw [lookup_set fs k p hq0] at hl
+    split at hl
+    · cases hl
+      obtain ⟨src, hs, hl⟩ := hk i rfl
+      exact Or.inl ⟨src, hs, hl⟩
+    · exact Or.inl ⟨p, hp, hl⟩
+  · intro hi
+    refine ⟨?_, ?_, ?_, ?_⟩
+    · intro p k' hp0 hl
+      rw [lookup_set fs k p hq0] at hl
+      rw [lookup_set fs k _ hq0]
+      by_cases hpq : p = q
+      · subst hpq
+        have : p.dropLast ≠ p := by
+          intro h
+          have := congrArg List.length h
+          simp at this
+          have := List.length_pos_iff.mpr hp0
+          omega
+        simp [this, hpar]
+      · simp only [hpq, if_false] at hl
+        have hd := hi.wf p k' hp0 hl
+        by_cases hpd : p.dropLast = q
+        · rw [hpd] at hd; rw [hnone] at hd; cases hd
+        · simp [hpd, hd]
+    · intro p i hl
+      rw [lookup_set fs k p hq0] at hl
+      split at hl
+      · cases hl
+        obtain ⟨src, _, hls⟩ := hk i rfl
+        exact hi.fresh src i hls
+      · exact hi.fresh p i hl
+    · intro p p' i hl hl' hu
+      rw [lookup_set fs k p hq0] at hl
+      rw [lookup_set fs k p' hq0] at hl'
+      by_cases hp' : p' = q
+      · subst hp'; exact hq
+      · simp only [hp', if_false] at hl'
+        by_cases hp : p = q
+        · subst hp
+          simp only [if_true] at hl
+          cases hl
+          obtain ⟨src, hs, hls⟩ := hk i rfl
+          exact hi.sep src p' i hls hl' hs
+        · simp only [hp, if_false] at hl
+          exact hi.sep p p' i hl hl' hu
+    · intro j hj
+      rw [lookup_set fs k _ hq0]
+      have : dest.take (j + 1) ≠ q := fun h => hq.ne_take (j + 1) h.symm
+      simp [this, hi.phys j hj]
+
+theorem noNewSym_set {fs : FS} {q : Path} {k : Kind} (hq0 : q ≠ []) (hk : ∀ t, k ≠ .sym t) :
+    NoNewSym fs (fs.set q k) := by
+  intro p t hl
+  rw [lookup_set fs k p hq0] at hl
+  split at hl
+  · cases hl; exact absurd rfl (hk t)
+  · exact hl
+
+/-- Creating a regular file with a fresh inode strictly below `dest`. -/
+theorem safe_newFile {dest : Path} {fs : FS} {q : Path} (c : Nat) (hq : Under dest q)
+    (hnone : fs.lookup q = none) (hpar : fs.lookup q.dropLast = some .dir) :
+    Safe dest fs ((({ fs with next := fs.next + 1 } : FS).setData fs.next c).set q (.file fs.next)) := by
+  have hq0 := hq.ne_nil
+  refine ⟨?_, ?_, ?_, ?_, ?_⟩
+  · intro p hp
+    rw [lookup_set _ _ p hq0]
+    have : p ≠ q := fun h => hp (h ▸ hq)
+    simp [this]
+  · intro i hne
+    simp only [content_set] at hne
+    rw [content_setData] at hne
+    split at hne
+    · rename_i h; right; rw [h]; exact Nat.le_refl _
+    · exact absurd rfl hne
+  · intro p i hp hl
+    rw [lookup_set _ _ p hq0] at hl
+    split at hl
+    · cases hl; exact Or.inr (Nat.le_refl _)
+    · exact Or.inl ⟨p, hp, hl⟩
+  · show fs.next ≤ fs.next + 1; omega
+  · intro hi
+    refine ⟨?_, ?_, ?_, ?_⟩
+    · intro p k' hp0 hl
+      rw [lookup_set _ _ p hq0] at hl
+      rw [lookup_set _ _ _ hq0]
+      by_cases hpq : p = q
+      · subst hpq
+        have : p.dropLast ≠ p := by
+          intro h
+          have := congrArg List.length h
+          simp at this
+          have := List.length_pos_iff.mpr hp0
+          omega
+        simp [this, hpar]
+      · simp only [hpq, if_false, lookup_setData, lookup_withNext] at hl
+        have hd := hi.wf p k' hp0 hl
+        by_cases hpd : p.dropLast = q
+        · rw [hpd] at hd; rw [hnone] at hd; cases hd
+        · simp [hpd, hd]
+    · intro p i hl
+      show i < fs.next + 1
+      rw [lookup_set _ _ p hq0] at hl
+      split at hl
+      · cases hl; omega
+      · have := hi.fresh p i hl; omega
+    · intro p p' i hl hl' hu
+      rw [lookup_set _ _ p hq0] at hl
+      rw [lookup_set _ _ p' hq0] at hl'
+      by_cases hp' : p' = q
+      · subst hp'; exact hq
+      · simp only [hp', if_false, lookup_setData, lookup_withNext] at hl'
+        by_cases hp : p = q
+        · subst hp
+          simp only [if_true] at hl
+          cases hl
+          exact absurd (hi.fresh p' _ hl') (Nat.lt_irrefl _)
+        · simp only [hp, if_false, lookup_setData, lookup_withNext] at hl
+          exact hi.sep p p' i hl hl' hu
+    · intro j hj
+      rw [lookup_set _ _ _ hq0]
+      have : dest.take (j + 1) ≠ q := fun h => hq.ne_take (j + 1) h.symm
+      simp [this, hi.phys j hj]
+
+/-- Removing an entry without children strictly below `dest`. -/
+theorem safe_del {dest : Path} {fs : FS} {q : Path} (hq : Under dest q)
+    (hleaf : ∀ p, p ≠ [] → p.dropLast = q → fs.lookup p = none) : Safe dest fs (fs.del q) := by
+  have hq0 := hq.ne_nil
+  refine ⟨?_, ?_, ?_, Nat.le_refl _, ?_⟩
+  · intro p hp
+    rw [lookup_del fs p hq0]
+    have : p ≠ q := fun h => hp (h ▸ hq)
+    simp [this]
+  · intro i hne; exact absurd rfl hne
+  · intro p i hp hl
+    rw [lookup_del fs p hq0] at hl
+    split at hl
+    · cases hl
+    · exact Or.inl ⟨p, hp, hl⟩
+  · intro hi
+    refine ⟨?_, ?_, ?_, ?_⟩
+    · intro p k' hp0 hl
+      rw [lookup_del fs p hq0] at hl
+      rw [lookup_del fs _ hq0]
+      split at hl
+      · cases hl
+      · have hd := hi.wf p k' hp0 hl
+        by_cases hpd : p.dropLast = q
+        · rw [hleaf p hp0 hpd] at hl; cases hl
+        · simp [hpd, hd]
+    · intro p i hl
+      rw [lookup_del fs p hq0] at hl
+      split at hl
+      · cases hl
+      · exact hi.fresh p i hl
+    · intro p p' i hl hl' hu
+      rw [lookup_del fs p hq0] at hl
+      rw [lookup_del fs p' hq0] at hl'
+      split at hl
+      · cases hl
+      · split at hl'
+        · cases hl'
+        · exact hi.sep p p' i hl hl' hu
+    · intro j hj
+      rw [lookup_del fs _ hq0]
+      have : dest.take (j + 1) ≠ q := fun h => hq.ne_take (j + 1) h.symm
+      simp [this, hi.phys j hj]
+
+theorem noNewSym_del {fs : FS} {q : Path} (hq0 : q ≠ []) : NoNewSym fs (fs.del q) := by
+  intro p t hl
+  rw [lookup_del fs p hq0] at hl
+  split at hl
+  · cases hl
+  · exact hl
+
+/-- Overwriting the content of a file linked strictly below `dest`. -/
+theorem safe_write {dest : Path} {fs : FS} {q : Path} {i : Nat} (c : Nat) (hq : Under dest q)
+    (hf : fs.lookup q = some (.file i)) : Safe dest fs (fs.setData i c) := by
+  refine ⟨fun _ _ => rfl, ?_, fun p j hp hl => Or.inl ⟨p, hp, hl⟩, Nat.le_refl _, ?_⟩
+  · intro j hne
+    rw [content_setData] at hne
+    split at hne
+    · rename_i h; subst h; exact Or.inl ⟨q, hq, hf⟩
+    · exact absurd rfl hne
+  · intro hi
+    exact ⟨hi.wf, hi.fresh, hi.sep, hi.phys⟩
+
+end MM.C27
+
+namespace MM.C27
+
+/-! ### system calls on lexically safe paths -/
+
+theorem lstat_found {fs : FS} {fu : Nat} {P p : Path} {k : Kind} (hdd : NoDD P)
+    (hc : Clear fs P (P.length - 1)) (h : lstat fs fu P = .found p k) :
+    p = P ∧ (P ≠ [] → fs.lookup P = some k) ∧ (P = [] → k = .dir) := by
+  rw [lstat_lex hdd hc] at h
+  have ⟨h1, h2, h3⟩ := lexRes_found h
+  simp only [List.nil_append] at h1
+  subst h1
+  exact ⟨rfl, h2, h3⟩
+
+theorem lstat_missing {fs : FS} {fu : Nat} {P par : Path} {n : Name} (hdd : NoDD P)
+    (hc : Clear fs P (P.length - 1)) (h : lstat fs fu P = .missing par n) :
+    par ++ [n] = P ∧ fs.lookup P = none ∧ fs.lookup par = some .dir := by
+  rw [lstat_lex hdd hc] at h
+  have ⟨h1, h2, h3⟩ := lexRes_missing h
+  simp only [List.nil_append] at h1 h2
+  refine ⟨h1, h2, ?_⟩
+  rcases h3 with h3 | h3
+  · rw [h3]; exact lookup_nil fs
+  · exact h3
+
+theorem stat_found {fs : FS} {fu : Nat} {P p : Path} {k : Kind} (hdd : NoDD P)
+    (hc : Clear fs P P.length) (h : stat fs fu P = .found p k) :
+    p = P ∧ (P ≠ [] → fs.lookup P = some k) ∧ (P = [] → k = .dir) := by
+  rw [stat_lex hdd hc] at h
+  have ⟨h1, h2, h3⟩ := lexRes_found h
+  simp only [List.nil_append] at h1
+  subst h1
+  exact ⟨rfl, h2, h3⟩
+
+theorem stat_missing {fs : FS} {fu : Nat} {P par : Path} {n : Name} (hdd : NoDD P)
+    (hc : Clear fs P P.length) (h : stat fs fu P = .missing par n) :
+    par ++ [n] = P ∧ fs.lookup P = none ∧ fs.lookup par = some .dir := by
+  rw [stat_lex hdd hc] at h
+  have ⟨h1, h2, h3⟩ := lexRes_missing h
+  simp only [List.nil_append] at h1 h2
+  refine ⟨h1, h2, ?_⟩
+  rcases h3 with h3 | h3
+  · rw [h3]; exact lookup_nil fs
+  · exact h3
+
+theorem dropLast_of_concat {par P : Path} {n : Name} (h : par ++ [n] = P) : P.dropLast = par := by
+  rw [← h]; simp
+
+theorem safe_mkdir {dest : Path} {fs : FS} {fu : Nat} {P : Path} (hdd : NoDD P)
+    (hc : Clear fs P (P.length - 1)) (hu : Under dest P) :
+    Safe dest fs (mkdir fs fu P).1 ∧ NoNewSym fs (mkdir fs fu P).1 := by
+  unfold mkdir
+  cases hl : lstat fs fu P with
+  | missing par n =>
+    have ⟨h1, h2, h3⟩ := lstat_missing hdd hc hl
+    simp only
+    rw [h1]
+    refine ⟨safe_set hu h2 (by rw [dropLast_of_concat h1]; exact h3) (fun i h => by cases h), ?_⟩
+    exact noNewSym_set hu.ne_nil (fun t h => by cases h)
+  | found p k => exact ⟨Safe.refl _ _, NoNewSym.refl _⟩
+  | err => exact ⟨Safe.refl _ _, NoNewSym.refl _⟩
+
+theorem clear_dropLast {fs : FS} {P : Path} (h : Clear fs P P.length) :
+    Clear fs P.dropLast P.dropLast.length := by
+  intro j hj
+  have hj' : j < P.length := by simp at hj; omega
+  have := h j hj'
+  have ht : P.dropLast.take (j + 1) = P.take (j + 1) := by
+    rw [List.dropLast_eq_take, List.take_take]
+    congr 1
+    simp at hj
+    omega
+  rw [ht]; exact this
+
+theorem prefix_concat_cases {dest P' : Path} {n : Name} (h : dest <+: P' ++ [n]) :
+    dest = P' ++ [n] ∨ dest <+: P' := by
+  rcases List.prefix_concat_iff.mp h with h | h
+  · exact Or.inl h
+  · exact Or.inr h
+
+/-- `os.MkdirAll` on a path all of whose existing components are not symbolic links, and which is
+    a prefix of `dest` or lies below it: only directories strictly below `dest` are created. -/
+theorem safe_mkdirAllR {dest : Path} {fu : Nat} : ∀ (rp : List Name) (fs : FS),
+    Inv dest fs → NoDD rp.reverse → Clear fs rp.reverse rp.reverse.length →
+    (rp.reverse <+: dest ∨ Under dest rp.reverse) →
+    Safe dest fs (mkdirAllR fs fu rp).1 ∧ NoNewSym fs (mkdirAllR fs fu rp).1 := by
+  intro rp
+  induction rp with
+  | nil => intro fs _ _ _ _; exact ⟨Safe.refl _ _, NoNewSym.refl _⟩
+  | cons n rparent ih =>
+    intro fs hI hdd hc hrel
+    have hP : (n :: rparent).reverse = rparent.reverse ++ [n] := by simp
+    unfold mkdirAllR
+    dsimp only
+    cases hs : stat fs fu (n :: rparent).reverse with
+    | found p k => cases k <;> exact ⟨Safe.refl _ _, NoNewSym.refl _⟩
+    | missing par m =>
+      exact mkdirAllR_tail ih hI hdd hc hrel hP
+    | err =>
+      exact mkdirAllR_tail ih hI hdd hc hrel hP
+where
+  mkdirAllR_tail {dest : Path} {fu : Nat} {n : Name} {rparent : List Name} {fs : FS}
+      (ih : ∀ (fs : FS), Inv dest fs → NoDD rparent.reverse →
+        Clear fs rparent.reverse rparent.reverse.length →
+        (rparent.reverse <+: dest ∨ Under dest rparent.reverse) →
+        Safe dest fs (mkdirAllR fs fu rparent).1 ∧ NoNewSym fs (mkdirAllR fs fu rparent).1)
+      (hI : Inv dest fs) (hdd : NoDD (n :: rparent).reverse)
+      (hc : Clear fs (n :: rparent).reverse (n :: rparent).reverse.length)
+      (hrel : (n :: rparent).reverse <+: dest ∨ Under dest (n :: rparent).reverse)
+      (hP : (n :: rparent).reverse = rparent.reverse ++ [n]) :
+      Safe dest fs
+        (match mkdirAllR fs fu rparent with
+          | (fs1, false) => (fs1, false)
+          | (fs1, true) =>
+            match mkdir fs1 fu (n :: rparent).reverse with
+            | (fs2, true) => (fs2, true)
+            | (_, false) => (fs1, isDirRes (lstat fs1 fu (n :: rparent).reverse))).1 ∧
+      NoNewSym fs
+        (match mkdirAllR fs fu rparent with
+          | (fs1, false) => (fs1, false)
+          | (fs1, true) =>
+            match mkdir fs1 fu (n :: rparent).reverse with
+            | (fs2, true) => (fs2, true)
+            | (_, false) => (fs1, isDirRes (lstat fs1 fu (n :: rparent).reverse))).1 := by
+    have hdd' : NoDD rparent.reverse := by
+      intro x hx; apply hdd x; rw [hP]; exact List.mem_append_left _ hx
+    have hc' : Clear fs rparent.reverse rparent.reverse.length := by
+      have := clear_dropLast hc
+      rw [hP] at this
+      simpa using this
+    have hrel' : rparent.reverse <+: dest ∨ Under dest rparent.reverse := by
+      rcases hrel with h | h
+      · left; rw [hP] at h; exact (List.prefix_append _ _).trans h
+      · rw [hP] at h
+        rcases prefix_concat_cases h.1 with he | hp
+        · exact absurd he.symm h.2
+        · by_cases heq : rparent.reverse = dest
+          · left; rw [heq]; exact List.prefix_refl _
+          · right; exact ⟨hp, heq⟩
+    have ⟨hS1, hN1⟩ := ih fs hI hdd' hc' hrel'
+    cases hr : mkdirAllR fs fu rparent with
+    | mk fs1 ok1 =>
+      rw [hr] at hS1 hN1
+      simp only at hS1 hN1
+      cases ok1 with
+      | false => exact ⟨hS1, hN1⟩
+      | true =>
+        simp only
+        have hI1 := hS1.inv hI
+        have hc1 : Clear fs1 (n :: rparent).reverse ((n :: rparent).reverse.length - 1) :=
+          (hc.mono hN1).le (by omega)
+        rcases hrel with hpre | hu
+        · -- a prefix of dest exists as a directory: mkdir cannot create anything
+          have hne : (n :: rparent).reverse ≠ [] := by rw [hP]; simp
+          have hlen : (n :: rparent).reverse.length ≤ dest.length := hpre.length_le
+          have hpos : 0 < (n :: rparent).reverse.length := List.length_pos_iff.mpr hne
+          have htake : dest.take ((n :: rparent).reverse.length - 1 + 1) = (n :: rparent).reverse := by
+            rw [Nat.sub_add_cancel hpos]
+            exact (List.prefix_iff_eq_take.mp hpre).symm
+          have hdir := hI1.phys ((n :: rparent).reverse.length - 1) (by omega)
+          rw [htake] at hdir
+          unfold mkdir
+          cases hl : lstat fs1 fu (n :: rparent).reverse with
+          | missing par m =>
+            have := (lstat_missing hdd hc1 hl).2.1
+            rw [hdir] at this; cases this
+          | found p k => exact ⟨hS1, hN1⟩
+          | err => exact ⟨hS1, hN1⟩
+        · have ⟨hS2, hN2⟩ := safe_mkdir (fs := fs1) (fu := fu) hdd hc1 hu
+          cases hm : mkdir fs1 fu (n :: rparent).reverse with
+          | mk fs2 ok2 =>
+            rw [hm] at hS2 hN2
+            cases ok2 with
+            | true => exact ⟨hS1.trans hS2, hN1.trans hN2⟩
+            | false => exact ⟨hS1, hN1⟩
+
+theorem safe_mkdirAll {dest : Path} {fu : Nat} {fs : FS} {P : Path} (hI : Inv dest fs) (hdd : NoDD P)
+    (hc : Clear fs P P.length) (hrel : P <+: dest ∨ Under dest P) :
+    Safe dest fs (mkdirAll fs fu P).1 ∧ NoNewSym fs (mkdirAll fs fu P).1 := by
+  unfold mkdirAll
+  have := safe_mkdirAllR (dest := dest) (fu := fu) P.reverse fs hI (by simpa using hdd) (by simpa using hc)
+    (by simpa using hrel)
+  exact this
+
+end MM.C27
+
+namespace MM.C27
+
+theorem inv_lookup_dest {dest : Path} {fs : FS} (hI : Inv dest fs) : fs.lookup dest = some .dir := by
+  cases hd : dest with
+  | nil => exact lookup_nil fs
+  | cons a as =>
+    have := hI.phys (dest.length - 1) (by rw [hd]; simp)
+    rw [hd] at this
+    simpa using this
+
+theorem under_of_ne_dir {dest : Path} {fs : FS} {P : Path} {k : Option Kind} (hI : Inv dest fs)
+    (hp : dest <+: P) (hl : fs.lookup P = k) (hk : k ≠ some .dir) : Under dest P := by
+  refine ⟨hp, fun he => ?_⟩
+  rw [he, inv_lookup_dest hI] at hl
+  exact hk hl.symm
+
+theorem isEmptyDir_leaf {fs : FS} {q : Path} (h : fs.isEmptyDir q = true) :
+    ∀ p, p ≠ [] → p.dropLast = q → fs.lookup p = none := by
+  intro p hp hd
+  unfold FS.lookup
+  rw [if_neg hp]
+  cases hf : fs.ents.find? (fun e => e.1 = p) with
+  | none => rfl
+  | some e =>
+    have hmem := List.mem_of_find?_eq_some hf
+    have hpe := List.find?_some hf
+    have hpe' : e.1 = p := by simpa using hpe
+    have := List.all_eq_true.mp h e hmem
+    rw [hpe'] at this
+    simp [hp, hd] at this
+
+theorem wf_ancestors {dest : Path} {fs : FS} (hI : Inv dest fs) {P : Path} {k : Kind}
+    (hl : fs.lookup P = some k) : ∀ d m, m + d = P.length → 1 ≤ m → 1 ≤ d →
+    fs.lookup (P.take m) = some .dir := by
+  intro d
+  induction d with
+  | zero => intro m _ _ h; omega
+  | succ d ih =>
+    intro m hm h1 _
+    have hne : P ≠ [] := by intro h; subst h; simp at hm
+    by_cases hd : d = 0
+    · subst hd
+      have : P.take m = P.dropLast := by
+        rw [List.dropLast_eq_take]; congr 1; omega
+      rw [this]
+      exact hI.wf P k hne hl
+    · have hdir := ih (m + 1) (by omega) (by omega) (by omega)
+      have hne' : P.take (m + 1) ≠ [] := by
+        intro h
+        have := congrArg List.length h
+        rw [List.length_take, List.length_nil] at this
+        omega
+      have := hI.wf (P.take (m + 1)) .dir hne' hdir
+      have ht : (P.take (m + 1)).dropLast = P.take m := by
+        rw [List.dropLast_eq_take, List.take_take, List.length_take]
+        congr 1
+        omega
+      rw [ht] at this
+      exact this
+
+theorem safe_remove {dest : Path} {fs : FS} {fu : Nat} {P : Path} (hI : Inv dest fs) (hdd : NoDD P)
+    (hc : Clear fs P (P.length - 1)) (hu : Under dest P) :
+    Safe dest fs (remove fs fu P) ∧ NoNewSym fs (remove fs fu P) ∧
+      (isSymRes (lstat fs fu P) = true → (remove fs fu P).lookup P = none) := by
+  have hP0 := hu.ne_nil
+  unfold remove
+  cases hl : lstat fs fu P with
+  | found q k =>
+    have ⟨h1, h2, _⟩ := lstat_found hdd hc hl
+    subst h1
+    have hlk := h2 hP0
+    cases k with
+    | dir =>
+      simp only
+      split
+      · rename_i hcond
+        exact ⟨safe_del hu (isEmptyDir_leaf hcond.2), noNewSym_del hP0, fun h => by simp [isSymRes] at h⟩
+      · exact ⟨Safe.refl _ _, NoNewSym.refl _, fun h => by simp [isSymRes] at h⟩
+    | file i =>
+      simp only
+      refine ⟨safe_del hu ?_, noNewSym_del hP0, fun h => by simp [isSymRes] at h⟩
+      intro p hp hd
+      cases hlp : fs.lookup p with
+      | none => rfl
+      | some k' =>
+        have := hI.wf p k' hp hlp
+        rw [hd, hlk] at this; cases this
+    | sym t =>
+      simp only
+      refine ⟨safe_del hu ?_, noNewSym_del hP0, fun _ => by rw [lookup_del fs _ hP0]; simp⟩
+      intro p hp hd
+      cases hlp : fs.lookup p with
+      | none => rfl
+      | some k' =>
+        have := hI.wf p k' hp hlp
+        rw [hd, hlk] at this; cases this
+  | missing par n => exact ⟨Safe.refl _ _, NoNewSym.refl _, fun h => by simp [isSymRes] at h⟩
+  | err => exact ⟨Safe.refl _ _, NoNewSym.refl _, fun h => by simp [isSymRes] at h⟩
+
+theorem safe_symlink {dest : Path} {fs : FS} {fu : Nat} {P : Path} (t : Target) (hdd : NoDD P)
+    (hc : Clear fs P (P.length - 1)) (hu : Under dest P) :
+    Safe dest fs (symlink fs fu t P).1 := by
+  unfold symlink
+  cases hl : lstat fs fu P with
+  | missing par n =>
+    have ⟨h1, h2, h3⟩ := lstat_missing hdd hc hl
+    simp only
+    rw [h1]
+    exact safe_set hu h2 (by rw [dropLast_of_concat h1]; exact h3) (fun i h => by cases h)
+  | found p k => exact Safe.refl _ _
+  | err => exact Safe.refl _ _
+
+theorem safe_link {dest : Path} {fs : FS} {fu : Nat} {old P : Path} (hI : Inv dest fs)
+    (hddo : NoDD old) (hco : Clear fs old old.length) (hpo : dest <+: old)
+    (hdd : NoDD P) (hc : Clear fs P (P.length - 1)) (hu : Under dest P) :
+    Safe dest fs (link fs fu old P).1 := by
+  unfold link
+  cases hl : lstat fs fu old with
+  | found p k =>
+    have ⟨h1, h2, h3⟩ := lstat_found hddo (hco.le (by omega)) hl
+    cases k with
+    | dir => exact Safe.refl _ _
+    | file i =>
+      simp only
+      have hold0 : old ≠ [] := fun h => by cases h3 h
+      have hlk := h2 hold0
+      have huo : Under dest old := under_of_ne_dir hI hpo hlk (by simp)
+      cases hl2 : lstat fs fu P with
+      | missing par n =>
+        have ⟨g1, g2, g3⟩ := lstat_missing hdd hc hl2
+        simp only
+        rw [g1]
+        exact safe_set hu g2 (by rw [dropLast_of_concat g1]; exact g3)
+          (fun j hj => by cases hj; exact ⟨old, huo, hlk⟩)
+      | found _ _ => exact Safe.refl _ _
+      | err => exact Safe.refl _ _
+    | sym t =>
+      simp only
+      cases hl2 : lstat fs fu P with
+      | missing par n =>
+        have ⟨g1, g2, g3⟩ := lstat_missing hdd hc hl2
+        simp only
+        rw [g1]
+        exact safe_set hu g2 (by rw [dropLast_of_concat g1]; exact g3) (fun j hj => by cases hj)
+      | found _ _ => exact Safe.refl _ _
+      | err => exact Safe.refl _ _
+  | missing _ _ => exact Safe.refl _ _
+  | err => exact Safe.refl _ _
+
+theorem safe_openTrunc {dest : Path} {fs : FS} {fu : Nat} {P : Path} (c : Nat) (hI : Inv dest fs)
+    (hdd : NoDD P) (hc : Clear fs P P.length) (hp : dest <+: P) :
+    Safe dest fs (openTrunc fs fu P c).1 := by
+  unfold openTrunc
+  cases hl : stat fs fu P with
+  | found q k =>
+    have ⟨h1, h2, h3⟩ := stat_found hdd hc hl
+    cases k with
+    | file i =>
+      simp only
+      have hP0 : P ≠ [] := fun h => by cases h3 h
+      have hlk := h2 hP0
+      exact safe_write c (under_of_ne_dir hI hp hlk (by simp)) hlk
+    | dir => exact Safe.refl _ _
+    | sym t => exact Safe.refl _ _
+  | missing par n =>
+    have ⟨h1, h2, h3⟩ := stat_missing hdd hc hl
+    simp only
+    rw [h1]
+    exact safe_newFile c (under_of_ne_dir hI hp h2 (by simp)) h2 (by rw [dropLast_of_concat h1]; exact h3)
+  | err => exact Safe.refl _ _
+
+end MM.C27
+
+namespace MM.C27
+
+/-! ### sanitizeTarPath leaves no ".." -/
+
+def J : List Name → Prop
+  | [] => True
+  | x :: s => (x = dd → ∀ y ∈ s, y = dd) ∧ J s
+
+theorem J_last : ∀ {stack : List Name}, J stack → stack.getLast? ≠ some dd → ∀ x ∈ stack, x ≠ dd := by
+  intro stack
+  induction stack with
+  | nil => intro _ _ x hx; cases hx
+  | cons a s ih =>
+    intro hJ hlast x hx
+    cases s with
+    | nil =>
+      simp at hx hlast
+      subst hx; exact hlast
+    | cons b s' =>
+      have hlast' : (b :: s').getLast? ≠ some dd := by simpa [List.getLast?_cons_cons] using hlast
+      have hs := ih hJ.2 hlast'
+      rcases List.mem_cons.mp hx with rfl | hx'
+      · intro hxd
+        have := hJ.1 hxd b (List.mem_cons_self ..)
+        exact hs b (List.mem_cons_self ..) this
+      · exact hs x hx'
+
+theorem cleanRel_nodd : ∀ (comps stack : List Name), J stack →
+    (cleanRel stack comps).head? ≠ some dd → NoDD (cleanRel stack comps) := by
+  intro comps
+  induction comps with
+  | nil =>
+    intro stack hJ hh
+    unfold cleanRel at hh ⊢
+    rw [List.head?_reverse] at hh
+    intro x hx
+    exact J_last hJ hh x (List.mem_reverse.mp hx)
+  | cons n rest ih =>
+    intro stack hJ hh
+    unfold cleanRel at hh ⊢
+    by_cases hn : n = dd
+    · simp only [hn, if_true] at hh ⊢
+      cases stack with
+      | nil => exact ih [dd] ⟨fun _ y hy => (by cases hy), trivial⟩ hh
+      | cons top s =>
+        simp only at hh ⊢
+        by_cases ht : top = dd
+        · simp only [ht, if_true] at hh ⊢
+          refine ih _ ⟨fun _ y hy => ?_, ?_⟩ hh
+          · rcases List.mem_cons.mp hy with rfl | hy'
+            · rfl
+            · exact hJ.1 ht y hy'
+          · rw [← ht]; exact hJ
+        · simp only [ht, if_false] at hh ⊢
+          exact ih s hJ.2 hh
+    · simp only [hn, if_false] at hh ⊢
+      exact ih (n :: stack) ⟨fun h => absurd h hn, hJ⟩ hh
+
+theorem sanitize_nodd {name : Target} {rel : List Name} (h : sanitize name = some rel) : NoDD rel := by
+  unfold sanitize at h
+  split at h
+  · cases h
+  · dsimp only at h
+    split at h
+    · cases h
+    · rename_i hh
+      cases h
+      exact cleanRel_nodd _ [] trivial hh
+
+theorem nodd_append {a b : List Name} (ha : NoDD a) (hb : NoDD b) : NoDD (a ++ b) := by
+  intro x hx
+  rcases List.mem_append.mp hx with h | h
+  · exact ha x h
+  · exact hb x h
+
+theorem nodd_dropLast {a : List Name} (ha : NoDD a) : NoDD a.dropLast :=
+  fun x hx => ha x (List.dropLast_subset a hx)
+
+/-! ### checkNoSymlinkComponents -/
+
+theorem lexRes_of_dirs {fs : FS} {fl : Bool} : ∀ (todo : List Name) (cur : Path) (k : Kind), todo ≠ [] →
+    (∀ j, j + 1 < todo.length → fs.lookup (cur ++ todo.take (j + 1)) = some .dir) →
+    fs.lookup (cur ++ todo) = some k → (∀ t, k = .sym t → fl = false) →
+    lexRes fs fl cur todo = .found (cur ++ todo) k := by
+  intro todo
+  induction todo with
+  | nil => intro _ _ h; exact absurd rfl h
+  | cons n rest ih =>
+    intro cur k _ hdirs hl hsym
+    unfold lexRes
+    cases rest with
+    | nil =>
+      rw [hl]
+      cases k with
+      | dir => simp [lexRes]
+      | file i => simp
+      | sym t => simp [hsym t rfl]
+    | cons m rest' =>
+      have h0 := hdirs 0 (by simp)
+      simp only [List.take_succ_cons, List.take_zero] at h0
+      rw [h0]
+      simp only
+      have := ih (cur ++ [n]) k (by simp) (fun j hj => by
+        have := hdirs (j + 1) (by simp at hj ⊢; omega)
+        simpa [List.take_succ_cons, List.append_assoc] using this) (by simpa [List.append_assoc] using hl) hsym
+      simpa [List.append_assoc] using this
+
+theorem clear_dropLast' {fs : FS} {P : Path} (h : Clear fs P (P.length - 1)) :
+    Clear fs P.dropLast P.dropLast.length := by
+  intro j hj
+  have hj' : j < P.length - 1 := by simpa using hj
+  have := h j hj'
+  have ht : P.dropLast.take (j + 1) = P.take (j + 1) := by
+    rw [List.dropLast_eq_take, List.take_take]
+    congr 1
+    omega
+  rw [ht]; exact this
+
+/-- If the Lstat walk of `checkNoSymlinkComponents` succeeds, no existing component it covers is a
+    symbolic link — including components below a missing one (there are none: `wf`). -/
+theorem check_sound {dest : Path} {fs : FS} {fu : Nat} (hI : Inv dest fs) (incl : Bool) :
+    ∀ (rel : List Name) (cur : Path), Clear fs cur cur.length → NoDD cur → NoDD rel →
+      checkNoSym fs fu cur rel incl = true →
+      Clear fs (cur ++ rel) (cur.length + (if incl then rel.length else rel.length - 1)) := by
+  intro rel
+  induction rel with
+  | nil =>
+    intro cur hc _ _ _
+    simpa using hc
+  | cons n rest ih =>
+    intro cur hc hddc hddr hchk
+    have hn : n ≠ dd := hddr n (List.mem_cons_self ..)
+    have hrest : NoDD rest := fun x hx => hddr x (List.mem_cons_of_mem _ hx)
+    -- the components of `cur` are clear in every longer path
+    have hlow : ∀ j, j < cur.length → NoSymAt fs ((cur ++ n :: rest).take (j + 1)) := by
+      intro j hj
+      have : (cur ++ n :: rest).take (j + 1) = cur.take (j + 1) := by
+        rw [List.take_append_of_le_length (by omega)]
+      rw [this]; exact hc j hj
+    unfold checkNoSym at hchk
+    split at hchk
+    · rename_i hcond
+      obtain ⟨hr, hi⟩ := hcond
+      subst hr; subst hi
+      intro j hj
+      simp at hj
+      exact hlow j hj
+    · rename_i hncond
+      have hdd1 : NoDD (cur ++ [n]) := nodd_append hddc (fun x hx => by simp at hx; subst hx; exact hn)
+      have hc1 : Clear fs (cur ++ [n]) ((cur ++ [n]).length - 1) := by
+        intro j hj
+        simp at hj
+        have : (cur ++ [n]).take (j + 1) = cur.take (j + 1) := by
+          rw [List.take_append_of_le_length (by omega)]
+        rw [this]; exact hc j hj
+      have hfull : (cur ++ [n]).take (cur.length + 1) = cur ++ [n] := List.take_of_length_le (by simp)
+      -- index bookkeeping for the recursive call
+      have hidx : ∀ j, j < cur.length + (if incl then (n :: rest).length else (n :: rest).length - 1) →
+          j < (cur ++ [n]).length + (if incl then rest.length else rest.length - 1) := by
+        intro j hj
+        cases incl with
+        | true => simp at hj ⊢; omega
+        | false =>
+          have hr : rest ≠ [] := fun h => hncond ⟨h, rfl⟩
+          have := List.length_pos_iff.mpr hr
+          simp at hj ⊢; omega
+      cases hl : lstat fs fu (cur ++ [n]) with
+      | missing par m =>
+        have hnone := (lstat_missing hdd1 hc1 hl).2.1
+        intro j hj
+        by_cases hjc : j < cur.length
+        · exact hlow j hjc
+        · intro t hlt
+          have hjt : j < cur.length + (rest.length + 1) := by
+            cases incl <;> simp at hj <;> omega
+          -- a symbolic link at or below the missing component would need that component to exist
+          have hQlen : ((cur ++ n :: rest).take (j + 1)).length = j + 1 := by
+            rw [List.length_take, List.length_append, List.length_cons]
+            exact Nat.min_eq_left (by omega)
+          have hQtake : ((cur ++ n :: rest).take (j + 1)).take (cur.length + 1) = cur ++ [n] := by
+            rw [List.take_take, Nat.min_eq_left (by omega), List.take_length_add_append 1]
+            simp
+          by_cases hje : j = cur.length
+          · subst hje
+            rw [List.take_length_add_append 1] at hlt
+            simp only [List.take_succ_cons, List.take_zero] at hlt
+            rw [hnone] at hlt
+            cases hlt
+          · have := wf_ancestors hI hlt (j - cur.length) (cur.length + 1) (by rw [hQlen]; omega) (by omega) (by omega)
+            rw [hQtake, hnone] at this
+            cases this
+      | err => rw [hl] at hchk; cases hchk
+      | found p k =>
+        rw [hl] at hchk
+        have ⟨h1, h2, _⟩ := lstat_found hdd1 hc1 hl
+        have hlk := h2 (by simp)
+        have hrec : (∀ t, k ≠ .sym t) → checkNoSym fs fu (cur ++ [n]) rest incl = true →
+            Clear fs (cur ++ n :: rest) (cur.length + (if incl then (n :: rest).length else (n :: rest).length - 1)) := by
+          intro hk hchk'
+          have hcur1 : Clear fs (cur ++ [n]) (cur ++ [n]).length := by
+            intro j hj
+            by_cases hjc : j < cur.length
+            · exact hc1 j (by simp; exact hjc)
+            · have : j = cur.length := by simp at hj; omega
+              subst this
+              intro t hlt
+              rw [hfull, hlk] at hlt
+              cases hlt
+              exact hk t rfl
+          have := ih (cur ++ [n]) hcur1 hdd1 hrest hchk'
+          intro j hj
+          have hgoal := this j (hidx j hj)
+          simpa [List.append_assoc] using hgoal
+        cases k with
+        | sym t => cases hchk
+        | dir => exact hrec (fun t h => by cases h) hchk
+        | file i => exact hrec (fun t h => by cases h) hchk
+
+theorem clear_dest {dest : Path} {fs : FS} (hI : Inv dest fs) : Clear fs dest dest.length := by
+  intro j hj t hl
+  rw [hI.phys j hj] at hl; cases hl
+
+end MM.C27
+
+namespace MM.C27
+
+/-! ### one entry, the loop -/
+
+theorem rel_cases (dest rel : Path) : dest ++ rel <+: dest ∨ Under dest (dest ++ rel) := by
+  by_cases h : rel = []
+  · left; subst h; simp
+  · right
+    refine ⟨List.prefix_append _ _, fun he => h ?_⟩
+    have := congrArg List.length he
+    simp at this
+    exact this
+
+theorem dropLast_rel_cases (dest rel : Path) :
+    (dest ++ rel).dropLast <+: dest ∨ Under dest (dest ++ rel).dropLast := by
+  by_cases h : rel = []
+  · left; subst h; simp; exact List.dropLast_prefix dest
+  · rw [List.dropLast_append_of_ne_nil h]
+    exact rel_cases dest rel.dropLast
+
+theorem clear_of_check {dest : Path} {fs : FS} {fu : Nat} (hI : Inv dest fs) (hdd : NoDD dest)
+    {rel : List Name} (hr : NoDD rel) {incl : Bool} (h : checkNoSym fs fu dest rel incl = true) :
+    Clear fs (dest ++ rel) (dest.length + (if incl then rel.length else rel.length - 1)) :=
+  check_sound hI incl rel dest (clear_dest hI) hdd hr h
+
+/-- After the optional removal of a symbolic link at the final component, no component of the
+    target is a symbolic link. -/
+theorem clear_after_unlink {dest : Path} {fs : FS} {fu : Nat} {P : Path} (hI : Inv dest fs) (hdd : NoDD P)
+    (hc : Clear fs P (P.length - 1)) (hp : dest <+: P) :
+    let fs2 := if isSymRes (lstat fs fu P) then remove fs fu P else fs
+    Safe dest fs fs2 ∧ Clear fs2 P P.length := by
+  intro fs2
+  by_cases hs : isSymRes (lstat fs fu P) = true
+  · have hfs2 : fs2 = remove fs fu P := by simp [fs2, hs]
+    -- the final component is a symbolic link, so the target is not the destination itself
+    have hu : Under dest P := by
+      cases hl : lstat fs fu P with
+      | found q k =>
+        rw [hl] at hs
+        cases k with
+        | sym t =>
+          have ⟨_, h2, h3⟩ := lstat_found hdd hc hl
+          have hP0 : P ≠ [] := fun h => by cases h3 h
+          exact under_of_ne_dir hI hp (h2 hP0) (by simp)
+        | dir => simp [isSymRes] at hs
+        | file i => simp [isSymRes] at hs
+      | missing _ _ => rw [hl] at hs; simp [isSymRes] at hs
+      | err => rw [hl] at hs; simp [isSymRes] at hs
+    have ⟨hS, hN, hgone⟩ := safe_remove (fu := fu) hI hdd hc hu
+    rw [hfs2]
+    refine ⟨hS, ?_⟩
+    intro j hj
+    by_cases hjl : j < P.length - 1
+    · exact (hc.mono hN) j hjl
+    · have : j + 1 = P.length := by omega
+      intro t hlt
+      rw [this, List.take_length, hgone hs] at hlt
+      cases hlt
+  · have hfs2 : fs2 = fs := by simp [fs2, hs]
+    rw [hfs2]
+    refine ⟨Safe.refl _ _, ?_⟩
+    intro j hj
+    by_cases hjl : j < P.length - 1
+    · exact hc j hjl
+    · have hjj : j + 1 = P.length := by omega
+      intro t hlt
+      rw [hjj, List.take_length] at hlt
+      -- then lstat would have reported the link
+      have hP0 : P ≠ [] := by intro h; subst h; simp at hj
+      have hdirs : ∀ i, i + 1 < P.length → fs.lookup ([] ++ P.take (i + 1)) = some .dir := by
+        intro i hi
+        have := wf_ancestors hI hlt (P.length - (i + 1)) (i + 1) (by omega) (by omega) (by omega)
+        simpa using this
+      have hlex := lexRes_of_dirs (fs := fs) (fl := false) P [] (.sym t) hP0 hdirs (by simpa using hlt) (fun _ _ => rfl)
+      have : lstat fs fu P = .found P (.sym t) := by
+        rw [lstat_lex hdd hc, hlex]; simp
+      rw [this] at hs
+      simp [isSymRes] at hs
+
+theorem safe_stepEntry {dest : Path} {fu : Nat} {fs : FS} (e : Entry) (hI : Inv dest fs) (hdd : NoDD dest) :
+    Safe dest fs (stepEntry true fu dest fs e).1 := by
+  unfold stepEntry
+  cases hs : sanitize e.name with
+  | none => exact Safe.refl _ _
+  | some rel =>
+    have hrel := sanitize_nodd hs
+    have hddT : NoDD (dest ++ rel) := nodd_append hdd hrel
+    have hpre : dest <+: dest ++ rel := List.prefix_append _ _
+    simp only [Bool.true_and]
+    cases hty : e.ty with
+    | dir =>
+      simp only
+      cases hchk : checkNoSym fs fu dest rel true with
+      | false => exact Safe.refl _ _
+      | true =>
+        simp only [Bool.not_true, Bool.false_eq_true, if_false]
+        have hc := clear_of_check (fu := fu) hI hdd hrel hchk
+        have hc' : Clear fs (dest ++ rel) (dest ++ rel).length := by simpa using hc
+        exact (safe_mkdirAll hI hddT hc' (rel_cases dest rel)).1
+    | other =>
+      simp only
+      cases hchk : checkNoSym fs fu dest rel false <;> exact Safe.refl _ _
+    | reg c =>
+      simp only
+      cases hchk : checkNoSym fs fu dest rel false with
+      | false => exact Safe.refl _ _
+      | true =>
+        simp only [Bool.not_true, Bool.false_eq_true, if_false]
+        have hc := clear_of_check (fu := fu) hI hdd hrel hchk
+        have hc' : Clear fs (dest ++ rel) ((dest ++ rel).length - 1) := by
+          refine hc.le ?_
+          simp; omega
+        have ⟨hS1, hN1⟩ := safe_mkdirAll (fu := fu) hI (nodd_dropLast hddT) (clear_dropLast' hc')
+          (dropLast_rel_cases dest rel)
+        cases hm : mkdirAll fs fu (dest ++ rel).dropLast with
+        | mk fs1 ok =>
+          rw [hm] at hS1 hN1
+          cases ok with
+          | false => exact hS1
+          | true =>
+            simp only
+            have hI1 := hS1.inv hI
+            have ⟨hS2, hC2⟩ := clear_after_unlink (fu := fu) hI1 hddT (hc'.mono hN1) hpre
+            have hI2 := hS2.inv hI1
+            exact (hS1.trans hS2).trans (safe_openTrunc c hI2 hddT hC2 hpre)
+    | sym t =>
+      simp only
+      cases hchk : checkNoSym fs fu dest rel false with
+      | false => exact Safe.refl _ _
+      | true =>
+        simp only [Bool.not_true, Bool.false_eq_true, if_false]
+        by_cases hr : rel = []
+        · simp [hr]; exact Safe.refl _ _
+        · simp only [hr, decide_false, Bool.false_eq_true, if_false]
+          split
+          · exact Safe.refl _ _
+          · have hc := clear_of_check (fu := fu) hI hdd hrel hchk
+            have hc' : Clear fs (dest ++ rel) ((dest ++ rel).length - 1) := by
+              refine hc.le ?_
+              simp; omega
+            have hu : Under dest (dest ++ rel) := by
+              rcases rel_cases dest rel with h | h
+              · exact absurd (List.eq_nil_of_length_eq_zero (by
+                  have := h.length_le; simp at this; omega)) hr
+              · exact h
+            have ⟨hS1, hN1⟩ := safe_mkdirAll (fu := fu) hI (nodd_dropLast hddT) (clear_dropLast' hc')
+              (dropLast_rel_cases dest rel)
+            cases hm : mkdirAll fs fu (dest ++ rel).dropLast with
+            | mk fs1 ok =>
+              rw [hm] at hS1 hN1
+              cases ok with
+              | false => exact hS1
+              | true =>
+                simp only
+                have hI1 := hS1.inv hI
+                have hc1 := hc'.mono hN1
+                have ⟨hS2, hN2, _⟩ := safe_remove (fu := fu) hI1 hddT hc1 hu
+                exact (hS1.trans hS2).trans (safe_symlink t hddT (hc1.mono hN2) hu)
+    | hard t =>
+      simp only
+      cases hchk : checkNoSym fs fu dest rel false with
+      | false => exact Safe.refl _ _
+      | true =>
+        simp only [Bool.not_true, Bool.false_eq_true, if_false]
+        by_cases hr : rel = []
+        · simp [hr]; exact Safe.refl _ _
+        · simp only [hr, decide_false, Bool.false_eq_true, if_false]
+          cases hs2 : sanitize t with
+          | none => exact Safe.refl _ _
+          | some lrel =>
+            simp only
+            cases hchk2 : checkNoSym fs fu dest lrel true with
+            | false => exact Safe.refl _ _
+            | true =>
+              simp only [Bool.not_true, Bool.false_eq_true, if_false]
+              have hlrel := sanitize_nodd hs2
+              have hco := clear_of_check (fu := fu) hI hdd hlrel hchk2
+              have hco' : Clear fs (dest ++ lrel) (dest ++ lrel).length := by simpa using hco
+              have hc := clear_of_check (fu := fu) hI hdd hrel hchk
+              have hc' : Clear fs (dest ++ rel) ((dest ++ rel).length - 1) := by
+                refine hc.le ?_
+                simp; omega
+              have hu : Under dest (dest ++ rel) := by
+                rcases rel_cases dest rel with h | h
+                · exact absurd (List.eq_nil_of_length_eq_zero (by
+                    have := h.length_le; simp at this; omega)) hr
+                · exact h
+              have ⟨hS1, hN1⟩ := safe_mkdirAll (fu := fu) hI (nodd_dropLast hddT) (clear_dropLast' hc')
+                (dropLast_rel_cases dest rel)
+              cases hm : mkdirAll fs fu (dest ++ rel).dropLast with
+              | mk fs1 ok =>
+                rw [hm] at hS1 hN1
+                cases ok with
+                | false => exact hS1
+                | true =>
+                  simp only
+                  have hI1 := hS1.inv hI
+                  have hc1 := hc'.mono hN1
+                  have ⟨hS2, hN2, _⟩ := safe_remove (fu := fu) hI1 hddT hc1 hu
+                  have hI2 := hS2.inv hI1
+                  exact (hS1.trans hS2).trans
+                    (safe_link hI2 (nodd_append hdd hlrel) ((hco'.mono hN1).mono hN2) (List.prefix_append _ _)
+                      hddT (hc1.mono hN2) hu)
+
+theorem safe_untarLoop {dest : Path} {fu : Nat} (hdd : NoDD dest) : ∀ (es : List Entry) (fs : FS),
+    Inv dest fs → Safe dest fs (untarLoop true fu dest fs es).1 := by
+  intro es
+  induction es with
+  | nil => intro fs _; exact Safe.refl _ _
+  | cons e es ih =>
+    intro fs hI
+    unfold untarLoop
+    have hS := safe_stepEntry (fu := fu) e hI hdd
+    cases hstep : stepEntry true fu dest fs e with
+    | mk fs1 ok =>
+      rw [hstep] at hS
+      cases ok with
+      | false => exact hS
+      | true => exact hS.trans (ih fs1 (hS.inv hI))
+
+theorem safe_untar {dest : Path} {fu : Nat} {fs : FS} (es : List Entry) (hI : Inv dest fs) (hdd : NoDD dest) :
+    Safe dest fs (untar true fu dest fs es).1 := by
+  unfold untar
+  have ⟨hS, _⟩ := safe_mkdirAll (fu := fu) hI hdd (clear_dest hI) (Or.inl (List.prefix_refl dest))
+  cases hm : mkdirAll fs fu dest with
+  | mk fs1 ok =>
+    rw [hm] at hS
+    cases ok with
+    | false => exact hS
+    | true => exact hS.trans (safe_untarLoop hdd es fs1 (hS.inv hI))
+
+end MM.C27
+
+namespace MM.C27
+
+/-! ### a decidable sufficient condition for `Inv` (used for non-vacuity examples) -/
+
+def underB (dest q : Path) : Bool := dest.isPrefixOf q && q != dest
+
+def invB (dest : Path) (fs : FS) : Bool :=
+  fs.ents.all (fun e => e.1 == [] || fs.lookup e.1.dropLast == some .dir) &&
+  fs.ents.all (fun e => match e.2 with | .file i => decide (i < fs.next) | _ => true) &&
+  fs.ents.all (fun e => fs.ents.all (fun e' =>
+    match e.2, e'.2 with
+    | .file i, .file j => i != j || !underB dest e.1 || underB dest e'.1
+    | _, _ => true)) &&
+  (List.range dest.length).all (fun j => fs.lookup (dest.take (j + 1)) == some .dir)
+
+theorem lookup_mem {fs : FS} {p : Path} {k : Kind} (hp : p ≠ []) (h : fs.lookup p = some k) :
+    (p, k) ∈ fs.ents := by
+  unfold FS.lookup at h
+  rw [if_neg hp] at h
+  cases hf : fs.ents.find? (fun e => e.1 = p) with
+  | none => rw [hf] at h; cases h
+  | some e =>
+    rw [hf] at h
+    have hm := List.mem_of_find?_eq_some hf
+    have hk := List.find?_some hf
+    have h1 : e.1 = p := by simpa using hk
+    have h2 : e.2 = k := by simpa using h
+    have : e = (p, k) := by cases e; simp at h1 h2; simp [h1, h2]
+    rw [← this]; exact hm
+
+theorem underB_iff {dest q : Path} : underB dest q = true ↔ Under dest q := by
+  unfold underB Under
+  simp [List.isPrefixOf_iff_prefix]
+
+theorem invB_sound {dest : Path} {fs : FS} (h : invB dest fs = true) : Inv dest fs := by
+  unfold invB at h
+  simp only [Bool.and_eq_true] at h
+  obtain ⟨⟨⟨h1, h2⟩, h3⟩, h4⟩ := h
+  refine ⟨?_, ?_, ?_, ?_⟩
+  · intro p k hp hl
+    have := List.all_eq_true.mp h1 _ (lookup_mem hp hl)
+    simpa [hp] using this
+  · intro p i hl
+    have hp : p ≠ [] := by intro hp; subst hp; rw [lookup_nil] at hl; cases hl
+    have := List.all_eq_true.mp h2 _ (lookup_mem hp hl)
+    simpa using this
+  · intro p q i hl hl' hu
+    have hp : p ≠ [] := by intro hp; subst hp; rw [lookup_nil] at hl; cases hl
+    have hq : q ≠ [] := by intro hq; subst hq; rw [lookup_nil] at hl'; cases hl'
+    have := List.all_eq_true.mp (List.all_eq_true.mp h3 _ (lookup_mem hp hl)) _ (lookup_mem hq hl')
+    simp only [bne_self_eq_false, Bool.false_or, Bool.or_eq_true, Bool.not_eq_true'] at this
+    rcases this with h | h
+    · have := underB_iff.mpr hu
+      rw [this] at h; cases h
+    · exact underB_iff.mp h
+  · intro j hj
+    have := List.all_eq_true.mp h4 j (List.mem_range.mpr hj)
+    simpa using this
+
 end MM.C27
